@@ -58,6 +58,8 @@ class Harness:
         self.assumes = meta.get("assume", "")
         self.allow_unsat_covers = meta.get("covers", "all") == "any"
         self.sub = meta.get("sub", "")  # sub-claim label within the property
+        # per-loop unwinding bounds: "substr:N substr2:M" (loop ids resolved with goto-instrument --show-loops)
+        self.unwindset = meta.get("unwindset", "")
 
     def __repr__(self):
         return f"<{self.crate}::{self.name}>"
@@ -245,6 +247,18 @@ def run_harness(h, slot, logs_dir):
     os.makedirs(os.path.dirname(target_dir(h.crate, slot)), exist_ok=True)
     with open(target_dir(h.crate, slot) + ".lock", "w") as lk:
         fcntl.flock(lk, fcntl.LOCK_EX)  # two property checks running at once share the slot target dirs
+        if h.unwindset:
+            extra, note = resolve_unwindset(h, slot, cmd, log_path)
+            r.unwindset_note = note
+            if extra is None:
+                r.log_path, r.rc, r.timed_out, r.wall = log_path, 1, False, 0.0
+                r.parsed = parse_kani_log("")
+                r.cmd = " ".join(cmd)
+                r.n_checks = r.n_failed = r.covers_total = r.covers_sat = 0
+                r.cover_descs, r.failed = [], []
+                r.verdict, r.reason = "inconclusive", "could not resolve per-loop unwinding bounds: " + note
+                return r
+            cmd = cmd + extra
         rc, timed_out, wall = run_cmd(cmd, crate_workdir(h.crate), h.timeout, h.mem_gb, log_path)
     text = open(log_path, errors="replace").read()
     r.log_path = log_path
@@ -253,6 +267,30 @@ def run_harness(h, slot, logs_dir):
     r.cmd = " ".join(cmd)
     classify(r, text)
     return r
+
+
+def resolve_unwindset(h, slot, base_cmd, log_path):
+    """per-loop unwinding bounds: compile the harness, list its loops (goto-instrument --show-loops) and turn
+    `substr:N` entries into `--cbmc-args --unwindset <loop id>:N,...`; every substr must match at least one loop"""
+    import glob
+    rc, timed_out, _ = run_cmd(base_cmd + ["--only-codegen"], crate_workdir(h.crate), 1800, 16, log_path + ".codegen")
+    if rc != 0:
+        return None, "codegen failed"
+    pat = os.path.join(target_dir(h.crate, slot), "kani", "*", "debug", "build", "*", "*", "out", f"*{h.name}.out")
+    files = [f for f in glob.glob(pat) if not f.endswith(".symtab.out")]
+    if not files:
+        return None, "goto binary not found"
+    gb = max(files, key=os.path.getmtime)
+    out = subprocess.run(["goto-instrument", "--show-loops", gb], capture_output=True, text=True).stdout
+    loops = re.findall(r"^Loop (\S+):\n\s+(.*)$", out, re.M)
+    pairs = []
+    for ent in h.unwindset.split():
+        sub, n = ent.rsplit(":", 1)
+        ids = [lid for lid, desc in loops if sub in lid or sub in desc]
+        if not ids:
+            return None, f"no loop matches '{sub}'"
+        pairs += [f"{lid}:{n}" for lid in ids]
+    return ["-Z", "unstable-options", "--cbmc-args", "--unwindset", ",".join(pairs)], f"{len(pairs)} loops bounded individually"
 
 
 def classify(r, text):
@@ -348,6 +386,10 @@ def make_replay(r, pid, slot, logs_dir):
            "--target-dir", target_dir(h.crate, slot), "-Z", "stubbing",
            "-Z", "concrete-playback", "--concrete-playback=print"]
     cmd += list(gen.crate_kani_flags(h.crate))
+    if h.unwindset:
+        extra, _ = resolve_unwindset(h, slot, [c for c in cmd if c not in ("-Z", "concrete-playback", "--concrete-playback=print")] + ["-Z", "stubbing"], log_path)
+        if extra:
+            cmd += extra
     rc, timed_out, wall = run_cmd(cmd, crate_workdir(h.crate), h.timeout * 2, h.mem_gb, log_path)
     text = open(log_path, errors="replace").read()
     tests = PLAYBACK_RE.findall(text)
